@@ -294,7 +294,8 @@ class Orbital(object):
         az_ = np.where(az_ < 0, az_ + 2 * np.pi, az_)
 
         rg_ = np.sqrt(rx * rx + ry * ry + rz * rz)
-        el_ = np.arcsin(top_z / rg_)
+        # Due to rounding top_z can be larger than rg_ (when el_ ~ 90).
+        el_ = np.arcsin(np.clip(top_z / rg_, -1.0, 1.0))
 
         return np.rad2deg(az_), np.rad2deg(el_)
 
